@@ -139,6 +139,14 @@ def stepDirect (st : St) (op hint : List String) : St × String :=
                            pending := real.map (fun c => (c, st.L)) }
       (st', o ++ " " ++ showCS real cur)
     | _ => (st, "bad-hint")
+  | ["compactfail"] =>
+    if st.pending.isSome then (st, "busy") else
+    match hint with
+    | o :: _ =>
+      let (pcs, comp') := compact st.comp st.L (parseOracle o [])
+      -- a failed call leaves the level list alone; the cursor is where the code put it before writing
+      ({ st with comp := comp' }, o ++ (if pcs.isSome then " failed cur=" else " none cur=") ++ toString comp'.minorLevel)
+    | _ => (st, "bad-hint")
   | ["apply"] =>
     match st.pending with
     | none => (st, "none")
